@@ -233,6 +233,98 @@ def histories(tier):
             yield list(h)
 
 
+MEAS_PROGS = [
+    [G("H", [0]), G("MEASURE", [0]), G("X", [1])],
+    [G("RY", [0], None, 0.8), G("CNOT", [1], [0]), G("MEASURE", [1]), G("H", [0])],
+    [G("MEASURE", [0]), G("X", [0])],                                   # measurement as the first instruction
+    [G("H", [1]), G("X", [0]), G("MEASURE", [1]), G("CNOT", [0], [1])],
+]
+MEAS_NOISE = [{}, {"X": [["pauli", [0.1, 0.0, 0.0]]]}, {"H": [["depol", 0.1]], "CNOT": [["depol", 0.1]]},
+              {"X": [["depol", 1.0 / 3.0]], "RY": [["pauli", [0.0, 0.2, 0.05]]]}]
+
+
+def check_noisy_measure(case, acc):
+    """Noise model together with a mid-circuit MEASURE, a desired outcome and (optionally) a user-supplied initial statevector:
+    the retry loop of the backend is explored with the scripted cirq random state (horizon: 3 attempts). Every measurement draw
+    must be handed the outcome distribution of the reference noisy state, and the state returned / sampled for the desired
+    outcome must be the normalised post-measurement mixed state."""
+    from tangelo.linq import get_backend
+    word, assign, b, use_init = case["word"], case["noise"], case["desired"], case["init"]
+    n = 2
+    c = mk_circ(word, n)
+    nm = mk_noise(assign) if assign else None
+    psi0 = None
+    if use_init:
+        k = np.arange(2 ** n)
+        psi0 = (1.0 + 0.37 * k) * np.exp(1j * (0.7 * k * k + 0.3 * k))
+        psi0 = psi0 / np.linalg.norm(psi0)
+    rho0 = None if psi0 is None else np.outer(psi0, psi0.conj())
+    rho_b, p_b, dists = DM.run_measured(word, n, ref_noise(assign), b, rho0)
+    sg = nsig(assign, word) + ("+init" if use_init else "")
+
+    def bad(kind, detail):
+        acc.violation(f"noisy-measure/{kind}/{sg}", case, detail, group=f"noisy-measure/{kind}")
+
+    order = get_backend("cirq").backend_info()["statevector_order"]
+    init_be = None if psi0 is None else SV.to_order(psi0, n, order)
+
+    def run(ch):
+        be = get_backend("cirq", n_shots=1, noise_model=nm)
+        be.cirq = seams.CirqProxy(ch)
+        fr, st = be.simulate(c, desired_meas_result=b, initial_statevector=init_be, return_statevector=True)
+        return {k: float(v) for k, v in fr.items()}, np.array(st)
+
+    n_exec = n_done = 0
+    try:
+        for choices, trace, infos, res in choicetree.explore(run, horizon=4, check_replay=True):
+            n_exec += 1
+            acc.transitions += len(trace)
+            if isinstance(res, str):        # horizon: the desired outcome was not drawn within the explored attempts
+                acc.count("noisy_measure_executions_cut_at_horizon")
+                continue
+            n_done += 1
+            acc.ev()
+            fr, st = res
+            meas_draws = [i for i in infos if "p" in i]
+            for i in meas_draws:
+                pp = [x for x in (i["p"] or [])]
+                if len(pp) != 2 or abs(pp[0] - dists[0][0]) > 1e-7 or abs(pp[1] - dists[0][1]) > 1e-7:
+                    bad("measurement-outcome-distribution", {"handed_to_the_draw": pp, "reference": dists[0]})
+                    return
+            if rho_b is None:
+                bad("zero-probability-outcome-returned", {"returned": fr})
+                return
+            samp = [i for i in infos if "state" in i]
+            for i in samp:
+                if np.asarray(i["state"]).shape == rho_b.shape and np.linalg.norm(np.asarray(i["state"]) - rho_b, 2) > 1e-7:
+                    bad("post-measurement-state-handed-to-sampler", {"distance": float(np.linalg.norm(np.asarray(i["state"]) - rho_b, 2))})
+                    return
+            if nm is not None and st.size == rho_b.size and np.linalg.norm(st.reshape(rho_b.shape) - rho_b, 2) > 1e-7:
+                bad("returned-state", {"distance": float(np.linalg.norm(st.reshape(rho_b.shape) - rho_b, 2))})
+                return
+            if nm is None and st.size == 2 ** n:
+                v = SV.from_order(st.reshape(-1), n, order)
+                if np.linalg.norm(np.outer(v, v.conj()) - rho_b, 2) > 1e-7:
+                    bad("returned-state", {"distance": float(np.linalg.norm(np.outer(v, v.conj()) - rho_b, 2))})
+                    return
+            acc.out(("noisy-measure", tuple(sorted(fr))))
+    except Exception as e:
+        if seams_error(e):
+            raise
+        if rho_b is None:
+            acc.nt(("noisy-measure-refused", repr(word), b))
+            return
+        bad("exception", {"err": repr(e)[:300]})
+        return
+    acc.states += n_exec
+    if n_done and assign:
+        acc.nt(("noisy-measure", repr(word), repr(assign), b, use_init))
+
+
+def seams_error(e):
+    return isinstance(e, (seams.UnownedRandomness, choicetree.ReplayDivergence))
+
+
 OBS = [[("Z0", 1.0)], [("X0", 1.0)], [("Y1", -0.5)], [("Z0 Z1", 1.0)], [("X0 X1", 1.0), ("Z1", 0.5)], [("Y0 Z1", 1.0), ("", 0.25)]]
 
 
@@ -409,6 +501,8 @@ def shards(tier, seed):
     sh = [{"kind": "malformed"}]
     for i in range(16):
         sh.append({"kind": "history", "part": i, "tier": tier})
+    for wi in range(len(MEAS_PROGS)):
+        sh.append({"kind": "noisy-measure", "prog": wi, "tier": tier})
     for i in range(NSH):
         sh.append({"kind": "state", "part": i, "tier": tier})
         sh.append({"kind": "expval", "part": i, "tier": tier})
@@ -422,6 +516,14 @@ def run_shard(sh):
         acc.sample({"kind": "malformed", "label": "pauli-sum-above-1"})
         return acc
     tier = sh["tier"]
+    if sh["kind"] == "noisy-measure":
+        for assign in MEAS_NOISE:
+            for b in "01":
+                for use_init in (False, True):
+                    check_noisy_measure({"kind": "noisy-measure", "word": MEAS_PROGS[sh["prog"]], "noise": assign, "desired": b,
+                                         "init": use_init}, acc)
+        acc.sample({"kind": "noisy-measure", "word": MEAS_PROGS[sh["prog"]], "noise": MEAS_NOISE[1], "desired": "1", "init": True})
+        return acc
     if sh["kind"] == "history":
         for i, h in enumerate(histories(tier)):
             if i % 16 == sh["part"]:
@@ -473,6 +575,8 @@ def replay_case(case):
         check_expval(case, acc)
     elif k == "history":
         check_history(case, acc)
+    elif k == "noisy-measure":
+        check_noisy_measure(case, acc)
     else:
         check_malformed(acc)
     return acc
